@@ -1,6 +1,7 @@
 #[macro_use]
 mod engine;
 mod agraph;
+mod gmodel;
 mod props;
 mod util;
 
